@@ -1491,6 +1491,8 @@ impl ParametricNullableCtx {
 
     fn dnf(&mut self, cond: &ParamCond, neg: bool) -> Result<Dnf> {
         let r = match cond {
+            // not(true) is false: the empty disjunction
+            ParamCond::True if neg => vec![],
             ParamCond::True => vec![self.clauses.insert(vec![])],
             ParamCond::NE(_, _)
             | ParamCond::EQ(_, _)
@@ -1612,7 +1614,8 @@ impl ParametricNullableCtx {
                     .map(|c| self.and_list(self.clauses.get(*c)))
                     .collect();
             } else {
-                assert!(sym.cond_nullable.is_empty());
+                // none of the conditions of the symbol's empty rules can hold
+                sym.cond_nullable.clear();
             }
         }
 
